@@ -13,7 +13,7 @@ RULE = ("cases: expression programs of 1-3 steps over operators from the typed z
         "batched), add_jitter, add_low_rank, cat_rows; PSD/PD operands for the root-decomposition based operations. oracle: shadow "
         "execution of every step on dense tensors with torch semantics (shape and value after each step); explicit not-supported "
         "errors accepted and counted. Failing binary cases are shrunk by replacing either operand with a dense operator of the same "
-        "value. distinct key = (operation, left class, right class / operand kind, batch rank, dtype)")
+        "value. distinct key = (operation, left class, right class / operand kind, batch rank, dtype) [round 4: `repeat` is followed by further steps with one more batch dimension than the operand had]")
 ASSUMPTIONS = ["torch broadcasting semantics of the dense shadow program are the specification", "lomon/model.py and zoo dense builders",
                "direct-method tolerance (compare.tol_direct) for operations defined through Cholesky root decompositions"]
 REQUIRED_STATS = ("steps",)
